@@ -409,7 +409,7 @@ impl<'a> Runner<'a> {
     let analysis = self.analyse(step, &kind, &slice, &res, is_repeat, fault_free);
 
     // Abort handling.
-    let store_differs = if res.abort.is_some() { self.check_store_dump(step) } else { false };
+    let store_differs = if res.abort.is_some() { self.check_store_dump(step, true) } else { false };
     if let Some(abort) = &res.abort {
       self.aborted_earlier = self.aborted_before;
       self.aborted_before = true;
@@ -450,7 +450,7 @@ impl<'a> Runner<'a> {
       return false;
     }
 
-    let _ = self.check_store_dump(step);
+    let _ = self.check_store_dump(step, false);
     if self.vs.iter().any(|v| v.concerns(self.prop)) { return true; }
 
     // The session returned: from-scratch equality.
@@ -601,10 +601,21 @@ impl<'a> Runner<'a> {
   }
 
   /// O8: the guarded store dump must equal the ledger of latest executions.
-  fn check_store_dump(&mut self, step: usize) -> bool {
+  fn check_store_dump(&mut self, step: usize, after_abort: bool) -> bool {
     use pie::verif::EdgeKind;
     let prog = self.prog.clone();
-    let dump = self.pie.verif_dump_store();
+    // The dump walks pie's own adjacency lists and edge data; when those disagree with each other (an edge listed
+    // without data, a dangling node) the walk panics exactly as pie's own accessors would.
+    let dump = match catch(|| self.pie.verif_dump_store()) {
+      Ok(d) => d,
+      Err(info) => {
+        let mut props = vec!["C08", "C10"];
+        if self.aborted_before || after_abort { props.push("C19"); }
+        let v = Violation::new(&props, "store-inconsistent", step, format!("pie's dependency store is internally inconsistent (walking all nodes and edges fails): {}", info.short()));
+        if self.vs.len() < 16 && !self.vs.iter().any(|x| x.oracle == "store-inconsistent") { self.vs.push(v); }
+        return true;
+      }
+    };
     let keys: Vec<KeyR> = dump.nodes.iter().map(|n| super::trk::render_key(n.key.as_ref())).collect();
     let mut problem: Option<(String, String)> = None; // (message, signature)
     // Symmetry of incoming / outgoing adjacency.
